@@ -532,4 +532,9 @@ def removePbcMolecules (c : Consts) (xs : List Vec) (mols : List (List Nat)) (b 
     Except DispErr (List Vec) :=
   mols.foldlM (removePbcStep c b) xs
 
+/-- `remove_pbc(atoms, selection)`: every molecule mask is intersected with the selection first. -/
+def removePbcSelected (c : Consts) (xs : List Vec) (mols : List (List Nat)) (sel : List Bool) (b : Box) :
+    Except DispErr (List Vec) :=
+  removePbcMolecules c xs (mols.map (fun m => m.filter (fun i => sel.getD i false))) b
+
 end BiotiteModel.C15
